@@ -19,6 +19,7 @@ You should have received a copy of the GNU General Public License
 along with evo.  If not, see <http://www.gnu.org/licenses/>.
 """
 
+import copy
 import logging
 import typing
 from enum import Enum, unique
@@ -350,7 +351,7 @@ class PosePath3D(object):
         :param dist: distance threshold for gap detection in meters
         """
         if self.num_poses < 2:
-            return [self]
+            return [copy.deepcopy(self)]
         jumps = self._jumps(dist)
         return [
             PosePath3D(poses_se3=self.poses_se3[jumps[i]:jumps[i + 1]])
@@ -487,10 +488,10 @@ class PoseTrajectory3D(PosePath3D, object):
         :param dt: time threshold for gap detection in seconds
         """
         if self.num_poses < 2:
-            return [self]
+            return [copy.deepcopy(self)]
         gaps = np.where(self.timestamps[1:] - self.timestamps[:-1] > dt)[0]
         if len(gaps) == 0:
-            return [self]
+            return [copy.deepcopy(self)]
         gaps = np.concatenate([[0], gaps + 1, [self.num_poses]])
         return [
             PoseTrajectory3D(timestamps=self.timestamps[gaps[i]:gaps[i + 1]],
@@ -506,7 +507,7 @@ class PoseTrajectory3D(PosePath3D, object):
         :param dist: distance threshold for gap detection in meters
         """
         if self.num_poses < 2:
-            return [self]
+            return [copy.deepcopy(self)]
         jumps = self._jumps(dist)
         return [
             PoseTrajectory3D(timestamps=self.timestamps[jumps[i]:jumps[i + 1]],
@@ -523,11 +524,11 @@ class PoseTrajectory3D(PosePath3D, object):
         :param v_max: speed threshold for outlier detection in m/s
         """
         if self.num_poses < 2:
-            return [self]
+            return [copy.deepcopy(self)]
         speeds = self.speeds
         outliers = np.where(speeds > v_max)[0]
         if len(outliers) == 0:
-            return [self]
+            return [copy.deepcopy(self)]
         jumps = np.concatenate([[0], outliers + 1, [self.num_poses]])
         return [
             PoseTrajectory3D(timestamps=self.timestamps[jumps[i]:jumps[i + 1]],
